@@ -935,6 +935,9 @@ pub struct World {
     /// yield injection for the fs shim
     pub fs_rng: Rng64,
     pub fs_yield_pm: u32,
+    /// yield injection at channel sends/receives (per-mille)
+    pub sched_rng: Rng64,
+    pub sched_yield_pm: u32,
 }
 
 impl World {
@@ -947,6 +950,8 @@ impl World {
             rdest_rng: Rng64::sub(seed, "rdest-thread-rng"),
             fs_rng: Rng64::sub(seed, "fs-yield"),
             fs_yield_pm: 0,
+            sched_rng: Rng64::sub(seed, "sched-yield"),
+            sched_yield_pm: 0,
         }
     }
 }
@@ -1030,4 +1035,13 @@ pub fn now_ms() -> u64 {
 
 pub fn log_len() -> usize {
     LOG.with(|l| l.borrow().entries.len())
+}
+
+/// Seeded decision "this task is slow right here": used by the channel shims.
+pub fn sched_yield() -> bool {
+    let y = try_with(|w| w.sched_yield_pm > 0 && w.sched_rng.below(1000) < w.sched_yield_pm as u64).unwrap_or(false);
+    if y {
+        bump("sched_yield");
+    }
+    y
 }
